@@ -19,7 +19,38 @@ def continues(act):
     return act[0] in ('normal', 'switch', 'raisesw')
 
 
-def gen_case(rng, big=False):
+KINDS = ['load', 'in', 'out', 'quit']
+
+
+def gen_reacts(rng, nh, curh_known=None):
+    """One-shot reactions of the listeners during one operation."""
+    rs = []
+    if rng.random() < 0.55:
+        return rs
+    for _ in range(rng.choice([1, 1, 1, 2, 2, 3])):
+        kind = rng.choice(['load', 'in', 'in', 'out', 'out', 'quit'])
+        r = rng.random()
+        if kind in ('load', 'in'):
+            # never K10 on purpose: no switch request while the loop is switching
+            act = rng.choice([['quit'], ['quitloop', 'default'], ['quitloop', 'current'],
+                              ['other']])
+        elif r < 0.3:
+            act = ['quit']
+        elif r < 0.45:
+            act = ['quitloop', rng.choice(['default', 'current'])]
+        elif r < 0.6:
+            act = ['other']
+        elif r < 0.8:
+            # the current handle at that moment is not known statically: no clear flags,
+            # so that K5 cannot arise on purpose
+            act = ['switch', rng.randrange(nh), False, False, rng.random() < 0.5]
+        else:
+            act = ['raisesw', rng.randrange(nh), rng.random() < 0.3, rng.random() < 0.3]
+        rs.append([kind, act])
+    return rs
+
+
+def gen_case(rng, big=False, reacts=True):
     nh = rng.choice([1, 2, 2, 3, 3, 4])
     nps = [rng.choice([1, 1, 2, 3]) for _ in range(nh)]
     tok = [0]
@@ -29,15 +60,28 @@ def gen_case(rng, big=False):
     def flags():
         return rng.random() < 0.3
 
+    risky = [False]     # once callbacks act, the current handle is not known statically
+
+    def rx(top=False):
+        if not reacts:
+            return []
+        rs = gen_reacts(rng, nh)
+        if rs:
+            risky[0] = True
+        if top:
+            rs = [r for r in rs if r[0] == 'load'][:1] if rng.random() < 0.5 else []
+        return rs
+
     h0 = rng.randrange(nh)
-    ops = [['top', h0, flags(), flags()]]
+    ops = [['top', h0, flags(), flags(), rx(True)]]
     curh = h0
     for _ in range(rng.randint(1, 5 if big else 3)):
         if rng.random() < 0.15:
             h = rng.randrange(nh)
-            ops.append(['top', h, flags(), flags()])
+            ops.append(['top', h, flags(), flags(), rx(True)])
             curh = h
             continue
+        start_rs = rx()
         frames = []
         n = rng.randint(0, 12 if big else 7)
         for i in range(n):
@@ -53,7 +97,7 @@ def gen_case(rng, big=False):
                 h = rng.randrange(nh)
                 # never the recorded finding K5 on purpose: no clear_next, no
                 # clear_current when switching to the current handle
-                cc = flags() and h != curh
+                cc = flags() and h != curh and not risky[0]
                 act = ['switch', h, cc, False, rng.random() < 0.5]
                 curh = h
             else:
@@ -66,7 +110,7 @@ def gen_case(rng, big=False):
                 pokes.append([rng.randrange(nh), tok[0]])
             frames.append(dict(t=t[0], pokes=pokes, pos=rng.randrange(4),
                                org=rng.choice(['proc', 'proc', 'event', 'coro']), act=act))
-        ops.append(['start', frames, rng.choice(['quit', 'quit', 'other'])])
+        ops.append(['start', frames, rng.choice(['quit', 'quit', 'other']), start_rs])
     return dict(nps=nps, ops=ops)
 
 
@@ -132,6 +176,9 @@ def run(case):
     st.end = 'quit'
     st.log = []
     st.fallbacks = 0
+    st.reacts = []          # [[event kind, action], ...] one-shot reactions of the listeners
+    st.inh = False          # a load-time / switch-in callback has run since the last clock
+                            # reading: the loop is carrying out a switch
     loop = None
 
     def wid(world):
@@ -142,7 +189,8 @@ def run(case):
 
     def perform(frame, world):
         act = frame['act']
-        st.log.append(['act', frame['org'], act])
+        st.log.append(['act', frame['org'], act, wid(loop.current_world),
+                       hid(loop.current_world_handle), frame.get('kind'), st.inh])
         kind = act[0]
         if kind == 'quit':
             raise desper.Quit()
@@ -163,6 +211,14 @@ def run(case):
             raise Boom()
         raise AssertionError('the action did not raise')
 
+    def react(kind, world):
+        # the first pending reaction to this kind of event is consumed and performed
+        for i, (k, act) in enumerate(st.reacts):
+            if k == kind:
+                del st.reacts[i]
+                perform(dict(org='callback', act=act, kind=kind), world)
+                return
+
     @desper.event_handler('on_world_load', 'on_switch_in', 'on_switch_out', 'on_quit',
                           'on_poke', 'on_probe')
     class Listener:
@@ -171,15 +227,21 @@ def run(case):
 
         def on_world_load(self, handle, world):
             st.log.append(['ev', wid(self.world), 'load', hid(handle), wid(world)])
+            st.inh = True
+            react('load', self.world)
 
         def on_switch_in(self, from_world, to_world):
             st.log.append(['ev', wid(self.world), 'in', wid(from_world), wid(to_world)])
+            st.inh = True
+            react('in', self.world)
 
         def on_switch_out(self, from_world, to_world):
             st.log.append(['ev', wid(self.world), 'out', wid(from_world), wid(to_world)])
+            react('out', self.world)
 
         def on_quit(self):
             st.log.append(['ev', wid(self.world), 'quit'])
+            react('quit', self.world)
 
         def on_poke(self, tok):
             st.log.append(['ev', wid(self.world), 'poke', tok])
@@ -249,6 +311,7 @@ def run(case):
             cw.add_processor(desper.CoroutineProcessor(), priority=2 * cw.verif_np)
             cw.verif_coro_used = False
         w, h = wid(cw), hid(loop.current_world_handle)
+        st.inh = False
         if st.frames:
             st.cur = st.frames.pop(0)
             st.log.append(['clock', st.cur['t'], w, h])
@@ -265,17 +328,31 @@ def run(case):
     try:
         for o in case['ops']:
             st.log = []
+            st.inh = False
             if o[0] == 'top':
+                st.reacts = [list(x) for x in (o[4] if len(o) > 4 else [])]
                 try:
                     loop.switch(handles[o[1]], o[2], o[3])
+                    out = ['returned']
+                except desper.Quit:
+                    out = ['quit']
+                except Boom:
+                    out = ['other']
+                except desper.SwitchWorld:
+                    out = ['switch']
+                except Exception as ex:
+                    out = ['exc', type(ex).__name__, str(ex)[:200]]
+                if out == ['returned']:
                     st.log.append(['topdone', wid(loop.current_world),
                                    hid(loop.current_world_handle)])
-                except Exception as ex:
-                    st.log.append(['exc', type(ex).__name__])
+                else:
+                    st.log.append(['topexc', out, wid(loop.current_world),
+                                   hid(loop.current_world_handle)])
             else:
                 st.frames = list(o[1])
                 st.end = o[2]
                 st.cur = None
+                st.reacts = [list(x) for x in (o[3] if len(o) > 3 else [])]
                 try:
                     loop.start()
                     out = ['returned', bool(loop.running)]
@@ -375,6 +452,50 @@ def enc_entry(e):
     if k == 'topdone':
         return 'ETopDone %s %s' % (z(e[1]), z(e[2]))
     return BAD
+
+
+KIND = {'load': 'KLoad', 'in': 'KIn', 'out': 'KOut', 'quit': 'KQuit'}
+
+
+def enc_reacts(rs):
+    return lst(['(%s, %s)' % (KIND[k], enc_action(a)) for k, a in rs])
+
+
+def enc_op_r(o):
+    if o[0] == 'top':
+        return '(OTop %s %s %s %s)' % (z(o[1]), b(o[2]), b(o[3]),
+                                       enc_reacts(o[4] if len(o) > 4 else []))
+    return '(OStart %s %s %s)' % (lst([enc_frame(f) for f in o[1]]),
+                                  'EndQuit' if o[2] == 'quit' else 'EndOther',
+                                  enc_reacts(o[3] if len(o) > 3 else []))
+
+
+def enc_entry_r(e):
+    k = e[0]
+    if k == 'act':
+        if e[1] == 'callback':
+            org = '(OCallback %s %s)' % (KIND[e[5]], b(e[6]))
+        else:
+            org = ORG[e[1]]
+        return 'EAct %s %s %s %s' % (org, enc_action(e[2]), z(e[3]), z(e[4]))
+    if k == 'topexc':
+        x = {'quit': 'TQuit', 'other': 'TOther', 'switch': 'TSwitch'}.get(e[1][0])
+        if x is None:
+            return BAD
+        return 'ETopExc %s %s %s' % (x, z(e[2]), z(e[3]))
+    return enc_entry(e)
+
+
+def encode_r(case, trace):
+    logs = trace.get('logs') if isinstance(trace, dict) else None
+    items = []
+    for i, o in enumerate(case['ops']):
+        if logs is None or i >= len(logs):
+            log = [BAD]
+        else:
+            log = [enc_entry_r(e) for e in logs[i]]
+        items.append('(%s, %s)' % (enc_op_r(o), lst(log)))
+    return '{| c_nps := %s; c_ops := %s |}' % (lst([nat(n) for n in case['nps']]), lst(items))
 
 
 def encode(case, trace):
